@@ -346,19 +346,69 @@ def l2_stamp(rng):
 
 
 def l2_level(rng):
+    """level names as they reach the cleaned architecture: 1-2 configurations, three nested levels each; a level entry may carry stray
+    keys (its own `num`, attributes), may be SHARED between the configurations (what a YAML anchor/alias produces: the same
+    dict object reached twice), and may carry a near-miss name, which must be rejected wherever it stands"""
     from teaal.parse import Architecture
-    lv = [{"name": rng.choice(["System", "Chip", "PE", "Stage0"]) + str(i), "last": rng.choice([None, 0, 1, 7, 31, 255])} for i in range(3)]
-    texts = [render(level_toks(l), rng) for l in lv]
-    d = {"architecture": {"cfg": [{"name": texts[0], "subtree": [{"name": texts[1], "subtree": [{"name": texts[2]}]}]}]}}
-    a = Architecture(copy.deepcopy(d))
-    spec = a.get_spec()["architecture"]["cfg"][0]
-    got = []
-    cur = spec
-    for _ in range(3):
-        got.append([cur["name"], cur["num"]])
-        cur = cur["subtree"][0] if cur.get("subtree") else None
-    want = [[l["name"], 1 if l["last"] is None else l["last"] + 1] for l in lv]
-    return texts, ([] if got == want else ["Architecture levels %r, written %r" % (got, want)])
+    def chain():
+        lv = [{"name": rng.choice(["System", "Chip", "PE", "Stage0"]) + str(i), "last": rng.choice([None, 0, 1, 7, 31, 255])} for i in range(3)]
+        texts = [render(level_toks(l), rng) for l in lv]
+        nodes = [{"name": t} for t in texts]
+        for n_ in nodes:
+            if rng.random() < 0.25:
+                n_["num"] = rng.choice([1, 2, 5, 64])          # a stray key: the instance count is what the NAME says
+            if rng.random() < 0.2:
+                n_["attributes"] = {"clock_frequency": 10 ** 9}
+        nodes[0]["subtree"] = [nodes[1]]; nodes[1]["subtree"] = [nodes[2]]
+        return lv, texts, nodes
+    lv0, texts0, nodes0 = chain()
+    cfgs = {"cfg0": [nodes0[0]]}
+    want = {"cfg0": [[l["name"], 1 if l["last"] is None else l["last"] + 1] for l in lv0]}
+    texts = list(texts0)
+    if rng.random() < 0.5:
+        if rng.random() < 0.5:
+            # share a sub-chain of the first configuration (alias)
+            k0 = rng.randint(0, 2)
+            cfgs["cfg1"] = [nodes0[k0]]
+            want["cfg1"] = want["cfg0"][k0:]
+        else:
+            lv1, texts1, nodes1 = chain()
+            cfgs["cfg1"] = [nodes1[0]]
+            want["cfg1"] = [[l["name"], 1 if l["last"] is None else l["last"] + 1] for l in lv1]
+            texts += texts1
+    miss = None
+    if rng.random() < 0.2:
+        # a near-miss name somewhere (possibly next to a stray num key): the whole architecture must be rejected
+        tgt = rng.choice(nodes0)
+        tgt["name"] = rng.choice([tgt["name"].replace("]", ""), tgt["name"] + "]", tgt["name"].replace("[0..", "[1.."), tgt["name"] + " x"]) if "[" in tgt["name"] else tgt["name"] + "[0.."
+        miss = tgt["name"]
+    d = {"architecture": cfgs}
+    try:
+        a = Architecture(copy.deepcopy(d))
+    except ValueError:
+        if miss is not None:
+            return (texts, "near-miss " + miss), []
+        raise
+    except Exception as e:
+        if miss is not None and type(e).__name__ in ("UnexpectedCharacters", "UnexpectedEOF", "UnexpectedInput", "UnexpectedToken"):
+            return (texts, "near-miss " + miss), []
+        raise
+    if miss is not None:
+        # independent reading of the level-name grammar (NAME | NAME "[0.." NUMBER "]", blanks/tabs ignored between tokens)
+        ok_m = re.fullmatch(r"[ \t]*[A-Za-z_][A-Za-z0-9_]*[ \t]*(\[0\.\.[ \t]*\d+(\.\d+)?[ \t]*\])?[ \t]*", miss) is not None
+        if not ok_m:
+            return (texts, "near-miss " + miss), ["level name %r is outside the level-name grammar but the architecture was accepted" % miss]
+        return (texts, "in-grammar variant " + miss), []
+    spec = a.get_spec()["architecture"]
+    probs = []
+    for c, w in want.items():
+        got, cur = [], spec[c][0]
+        while cur is not None:
+            got.append([cur["name"], cur.get("num")])
+            cur = cur["subtree"][0] if cur.get("subtree") else None
+        if got != w:
+            probs.append("Architecture levels of %s: %r, written %r" % (c, got, w))
+    return (texts, sorted(cfgs)), probs
 
 
 def l2_directive(rng):
